@@ -7,7 +7,7 @@ sys.path.insert(0, os.path.dirname(os.path.abspath(__file__)))
 from fv import c19, c05, c11, c08, c03, c01, c07, c12, c16, c18, flexrun
 flex, src = flexrun.build_flex()
 bad = 0
-for name, r in (('Options', c19.regen_options(src)), ('StartStack', c05.regen_startstack()), ('BufStack', c11.regen_bufstack()), ('ScanBuf', c11.regen_scanbuf()),
+for name, r in (('Options', c19.regen_options(src)), ('StartStack', c05.regen_startstack()), ('BufStack', c11.regen_bufstack()), ('ScanBuf', c11.regen_scanbuf()), ('Flush', c11.regen_flush()),
                 ('Unput', c08.regen_unput()), ('YYLess', c08.regen_yyless()), ('NextBuf', c03.regen_nextbuf()), ('PrevState', c01.regen_prevstate()), ('Reject', c07.regen_reject()),
                 ('M4Symbols', c19.regen_m4symbols(src)), ('Proc', c16.regen_proc(src)), ('Calls', c18.regen_calls(flex, src)),
                 ('Footprint', c12.regen_footprint(flex, src, flexrun.scratch_root()))):
